@@ -905,6 +905,10 @@ def raw_strings(max_len: int):
         ("abs.__self__", False), ("max([1,2], key=abs)", False), ("eval('1')", False), ("getattr(1, 'real')", False),
         ("exec('x=1')", False), ("compile('1','','eval')", False), ("globals()", False), ("1 if 1 else 2", False),
         ("round(2.567, ndigits=1)", False), ("int('11', base=2)", False), ("(0 or 5) + 1", False), ("pi()", False),
+        ("(1, 2)[0]", False), ("[1, 2][0]", False), ("'abc'[0]", False), ("(1).real", False), ("(1).bit_length()", False),
+        ("'a'.upper()", False), ("{1: 2}[1]", False), ("{1, 2}", False), ("(x := 1)", False), ("[*(1, 2)]", False),
+        ("(1, 2)[0:1]", False), ("max(*[1, 2])", False), ("max(**{})", False), ("1 if (1).real else 2", False),
+        ("0 or (1, 2)[0]", False), ("2 < (3, 4)[1]", False), ("[i for i in (1, 2)][0]", False), ("f''", False),
         ("'true' == '1'", False), ("len('False') == 5", False), ("0 and 1/0", False), ("1 or 1/0", False),
     ]
     return out
